@@ -190,6 +190,26 @@ def run(ctx, chk, tier):
             chk.hold("R19.5", "from_labels", "genuines = scores[labels == genuine_label], frauds = scores[labels != genuine_label]; easy counts and score_class forwarded")
         for k, g, w in bad:
             chk.violation("R19.5", flq, "arg:" + k, show(g, 140) if g is not None else "missing", show(w, 140), ctx.where(flq))
+    # labels / scores are documented as array-LIKE: a list or tuple of labels must be converted before it is compared elementwise
+    # (`[..] == label` is one scalar False: every score would land in the fraud class)
+    L2, S2 = Sym("labels_like", ("param", "array", "notnone", "arraylike")), Sym("scores_like", ("param", "array", "notnone", "arraylike"))
+    ev.stubs[initq] = lambda ev_, fi, bound: Const(None)
+    ev.mark_conversions = True
+    try:
+        outs2 = ctx.explore(lambda: ev.call(fl, [L2, S2], {"genuine_label": gl, "nb_easy_genuines": EG, "nb_easy_frauds": EF, "score_class": scls}), chk)
+    finally:
+        ev.mark_conversions = False
+        ev.stubs.pop(initq, None)
+    raw = [e for o in outs2 for e in o.events if e["kind"] == "raw_sequence_use"]
+    if raw:
+        e = raw[0]
+        chk.violation("R19.5", flq, "array-like:%s" % show(e["value"], 20), "%s %s" % (show(e["value"], 20), e["what"]),
+                      "labels and scores converted with np.asarray before they are compared / indexed (lists and tuples are documented inputs)",
+                      "%s line %s" % (ctx.where(flq), getattr(e.get("node"), "lineno", "?")))
+    elif any(o.kind == "return" for o in outs2):
+        chk.hold("R19.5", "from_labels:array-like", "labels and scores are converted before any elementwise use")
+    else:
+        chk.unknown("R19.5", "from_labels with array-like arguments: no return path")
     alias_setters(ctx, chk, ci)
     caches_follow_setters(ctx, chk, ci)
     class_blind(ctx, chk, ci)
